@@ -9,7 +9,7 @@ from harness.core import hx, unhx, Violation, excname
 
 LEAN_TARGETS = ["PoorProofs.Props.C11"]
 AUDIT_IMPORTS = ["PoorProofs.Props.C11"]
-LEAN_FILES = ["PoorModel/Digest.lean", "PoorProofs/Props/C11.lean"]
+LEAN_FILES = ["PoorModel/Digest.lean", "PoorProofs/Lemmas/Digest.lean", "PoorProofs/Props/C11.lean"]
 THEOREMS = ["Poor.Props.C11.gate_run_iff",
             "Poor.Props.C11.C11_no_header",
             "Poor.Props.C11.C11_sound",
@@ -19,7 +19,9 @@ THEOREMS = ["Poor.Props.C11.gate_run_iff",
             "Poor.Props.C11.C11_uri_suffix_accepted",
             "Poor.Props.C11.expectedResponse_collision",
             "Poor.Props.C11.C11_wrong_secret_collision",
-            "Poor.Props.C11.C11_no_error"]
+            "Poor.Props.C11.C11_no_error",
+            "Poor.Digest.scanAuthF_render", "Poor.Digest.authDict_render", "Poor.Digest.C11_wire",
+            "Poor.Props.C11.C11_complete_wire"]
 TRUSTED_BASE = ["model Poor.Digest hand-written from digest.py:33-190, request.py:27 and 556-568; the hash functions are "
                 "parameters of the model (theorems hold for every function; what soundness needs of them - injectivity on "
                 "the compared strings - is an explicit hypothesis); the correspondence runs install one injective stand-in "
